@@ -124,4 +124,94 @@ func genC26(g *gen) {
 	}
 	g.line("Definition gen_symlink_check_only_final_component : bool := %s.",
 		coqBool(strings.Contains(sb, "os.Lstat(path)") && strings.Contains(sb, "info.Mode()&os.ModeSymlink==0{returnnil}") && strings.Contains(sb, "filepath.EvalSymlinks(path)") && strings.Contains(sb, "h.validatePath(target)")))
+
+	// ---- the allow-list decision is made on exactly the path the operation uses
+	// normalizePath: the calls it applies to the path, in order
+	np := findFunc(f, "", "normalizePath")
+	g.line("(* calls normalizePath applies to the path, in order: anything besides NFC and Clean makes the checked path differ from the used one *)")
+	g.line("Definition gen_normalize_calls : list string := %s.", coqStringList(callNames(np)))
+	// the path the operations use: the first thing each entry point does with its path argument
+	bf := parseFile("internal/filetransfer/browse.go")
+	usedBy := func(fd *ast.FuncDecl) string {
+		if fd == nil || fd.Body == nil {
+			return "?"
+		}
+		out := "?"
+		ast.Inspect(fd.Body, func(n ast.Node) bool {
+			if out != "?" {
+				return false
+			}
+			switch x := n.(type) {
+			case *ast.AssignStmt:
+				if len(x.Lhs) == 1 && len(x.Rhs) == 1 && src(x.Lhs[0]) == "path" {
+					out = nospaceFs(src(x.Rhs[0]))
+				}
+			case *ast.ReturnStmt:
+				if len(x.Results) == 2 && nospaceFs(src(x.Results[1])) == "nil" {
+					out = nospaceFs(src(x.Results[0]))
+				}
+			}
+			return true
+		})
+		return out
+	}
+	g.line("Definition gen_used_path_require : string := %s.", coqString(usedBy(findFunc(bf, "StreamHandler", "requirePath"))))
+	g.line("Definition gen_used_path_upload : string := %s.", coqString(usedBy(findFunc(f, "StreamHandler", "WriteUploadedFile"))))
+	g.line("Definition gen_used_path_download : string := %s.", coqString(usedBy(findFunc(f, "StreamHandler", "ReadFileForDownload"))))
+	// ---- matching respects component boundaries
+	ipa := findFunc(f, "", "isPathAllowed")
+	calls := callNames(ipa)
+	count := func(name string) int {
+		n := 0
+		for _, c := range calls {
+			if c == name {
+				n++
+			}
+		}
+		return n
+	}
+	g.line("(* isPathAllowed: the recursive-glob branch and the no-glob branch both go through isPathUnderPrefix; no raw string prefix test *)")
+	g.line("Definition gen_allowed_under_prefix_calls : N := %d.", count("isPathUnderPrefix"))
+	g.line("Definition gen_allowed_raw_prefix_calls : N := %d.", count("strings.HasPrefix"))
+	g.line("Definition gen_allowed_match_calls : N := %d.", count("filepath.Match"))
+	recursiveBranchOK := false
+	if ipa != nil && ipa.Body != nil {
+		for _, st := range ipa.Body.List {
+			ifs, ok := st.(*ast.IfStmt)
+			if !ok || !strings.Contains(nospaceFs(src(ifs.Cond)), `"/**"`) {
+				continue
+			}
+			for _, b := range ifs.Body.List {
+				if r, ok := b.(*ast.ReturnStmt); ok && len(r.Results) == 1 {
+					if call, ok := r.Results[0].(*ast.CallExpr); ok && src(call.Fun) == "isPathUnderPrefix" {
+						recursiveBranchOK = true
+					}
+				}
+			}
+		}
+	}
+	g.line("Definition gen_recursive_glob_uses_under_prefix : bool := %s.", coqBool(recursiveBranchOK))
+	// isPathUnderPrefix: exact match, or prefix with a separator appended
+	up := findFunc(f, "", "isPathUnderPrefix")
+	ub := ""
+	if up != nil {
+		ub = nospaceFs(src(up.Body))
+	}
+	g.line("Definition gen_under_prefix_appends_separator : bool := %s.",
+		coqBool(strings.Contains(ub, "cleanPrefix+=string(filepath.Separator)") && strings.Contains(ub, "strings.HasPrefix(cleanPath,cleanPrefix)") && strings.Contains(ub, "cleanPath==cleanPrefix")))
+}
+
+// callNames lists the callee expressions of the calls inside fd, in source order.
+func callNames(fd *ast.FuncDecl) []string {
+	var out []string
+	if fd == nil || fd.Body == nil {
+		return out
+	}
+	ast.Inspect(fd.Body, func(n ast.Node) bool {
+		if call, ok := n.(*ast.CallExpr); ok {
+			out = append(out, nospaceFs(src(call.Fun)))
+		}
+		return true
+	})
+	return out
 }
